@@ -181,9 +181,45 @@ fn gen_cp(r: &mut Rng) -> u32 {
     }
 }
 
+/// characters that repr writes as an escape sequence (controls, quote, backslash, unprintables, unassigned)
+const ESCAPED: [u32; 18] = [0x0a, 0x09, 0x0d, 0x00, 0x1b, 0x7f, 0x22, 0x5c, 0x85, 0xad, 0x200b, 0x2028, 0xffff, 0xe000, 0x383, 0x10ffff, 0x08, 0x9f];
+/// characters that extend the preceding grapheme cluster: spacing marks, Grapheme_Extend marks, ZWJ,
+/// variation selectors, emoji skin tones, conjoining jamo, tags, regional indicators
+const JOINERS: [u32; 24] = [
+    0x93e, 0x93f, 0x903, 0x0bbe, 0x0d3e, 0x1f3fb, 0x1f3fc, 0x1f3fd, 0x1f3fe, 0x1f3ff, 0x200d, 0xfe0f, 0xfe0e, 0x301, 0x300, 0x20e3, 0x1160, 0x11a8, 0xe0020, 0xe007f,
+    0x1f1e6, 0x0e33, 0x094d, 0x1d165,
+];
+const BASES: [u32; 8] = [0x61, 0x20, 0x1f469, 0x915, 0x1100, 0x7d, 0x7b, 0x31];
+
+/// exactly n characters: free code points mixed with segments `escaped char + run of 1-4 joiners`
+/// (also a run at the very start, and runs after ordinary base characters)
+fn gen_chars_n(r: &mut Rng, n: usize) -> Vec<char> {
+    let mut out: Vec<u32> = Vec::with_capacity(n + 6);
+    let structured = r.chance(1, 2);
+    if structured && r.chance(1, 3) {
+        for _ in 0..1 + r.below(3) {
+            out.push(*r.pick(&JOINERS));
+        }
+    }
+    while out.len() < n {
+        if structured && r.chance(2, 3) {
+            out.push(if r.chance(3, 4) { *r.pick(&ESCAPED) } else { *r.pick(&BASES) });
+            let same = r.chance(1, 2);
+            let j0 = *r.pick(&JOINERS);
+            for _ in 0..1 + r.below(4) {
+                out.push(if same { j0 } else { *r.pick(&JOINERS) });
+            }
+        } else {
+            out.push(gen_cp(r));
+        }
+    }
+    out.truncate(n);
+    out.into_iter().map(|c| char::from_u32(c).unwrap()).collect()
+}
+
 fn gen_string(r: &mut Rng, max: usize) -> Vec<char> {
     let n = r.below(max + 1);
-    (0..n).map(|_| char::from_u32(gen_cp(r)).unwrap()).collect()
+    gen_chars_n(r, n)
 }
 
 fn gen_nat53(r: &mut Rng) -> u64 {
@@ -299,7 +335,7 @@ fn gen_val(r: &mut Rng, depth: usize, max_rank: usize) -> Value {
             num(&shape, &d)
         }
         1 => byte(&shape, &(0..n).map(|_| r.below(256) as u8).collect::<Vec<_>>()),
-        2 => chars(&shape, &(0..n).map(|_| char::from_u32(gen_cp(r)).unwrap()).collect::<Vec<_>>()),
+        2 => chars(&shape, &gen_chars_n(r, n)),
         3 => cplx(&shape, &(0..n).map(|_| Complex::new(gen_bin_any(r), gen_bin_any(r))).collect::<Vec<_>>()),
         4 => num(&shape, &(0..n).map(|_| gen_finite_f64(r)).collect::<Vec<_>>()),
         _ => boxes(&shape, (0..n).map(|_| gen_val(r, depth + 1, max_rank.min(2))).collect()),
@@ -450,6 +486,35 @@ fn regress_values() -> Vec<Value> {
         boxes(&[2], vec![chars(&[2], &esc), chars(&[5], &esc2)]),
         num(&[], &[w]),
     ]
+    .into_iter()
+    .chain(joiner_run_values())
+    .collect()
+}
+
+/// strings with RUNS of cluster-joining characters after an escaped character, at the start of the
+/// string, boxed and in a rank-2 character array (repr must keep its escapes parseable)
+fn joiner_run_values() -> Vec<Value> {
+    let cs = |v: &[u32]| -> Vec<char> { v.iter().map(|c| char::from_u32(*c).unwrap()).collect() };
+    let strs: Vec<Vec<char>> = vec![
+        cs(&[0x0a, 0x93e, 0x93e, 0x61]),
+        cs(&[0x22, 0x1f3fb, 0x1f3fc, 0x1f3fd]),
+        cs(&[0x5c, 0x93e, 0x200d, 0x93e, 0x93e]),
+        cs(&[0x93e, 0x93e, 0x61]),
+        cs(&[0x1f3fb, 0x1f3fb, 0x1f3fb, 0x1f3fb]),
+        cs(&[0x00, 0xfe0f, 0xfe0f, 0x301, 0x93e]),
+        cs(&[0x09, 0x903, 0x903, 0x903, 0x0a, 0x1f3ff, 0x1f3fe]),
+        cs(&[0x7f, 0x0bbe, 0x0bbe, 0x22, 0x0d3e, 0x0d3e, 0x0d3e]),
+        cs(&[0x61, 0x0a, 0x1160, 0x11a8, 0x11a8]),
+        cs(&[0xffff, 0x1f1e6, 0x1f1e6, 0x1f1e6]),
+        cs(&[0x1b, 0xe0020, 0xe0020, 0xe007f]),
+        cs(&[0x0d, 0x0a, 0x93e, 0x93e]),
+    ];
+    let mut vals: Vec<Value> = strs.iter().map(|c| chars(&[c.len()], c)).collect();
+    vals.push(boxes(&[3], strs[..3].iter().map(|c| chars(&[c.len()], c)).collect()));
+    vals.push(chars(&[2, 4], &cs(&[0x0a, 0x93e, 0x93e, 0x61, 0x22, 0x1f3fb, 0x1f3fc, 0x1f3fd])));
+    vals.push(chars(&[3, 2], &cs(&[0x93e, 0x93e, 0x09, 0x93f, 0x93f, 0x93e])));
+    vals.push(chars(&[], &cs(&[0x93e])));
+    vals
 }
 
 fn search_binary(r: &mut Rng, n: usize, o: &mut Out) {
@@ -595,8 +660,15 @@ fn search_numbers(r: &mut Rng, n: usize, o: &mut Out) {
 }
 
 fn search_text(r: &mut Rng, n: usize, o: &mut Out) {
-    for _ in 0..n {
-        let s = gen_string(r, 8);
+    let fixed: Vec<Vec<char>> = joiner_run_values()
+        .into_iter()
+        .filter_map(|v| match &v {
+            Value::Char(a) if v.rank() == 1 => Some(a.elements().copied().collect()),
+            _ => None,
+        })
+        .collect();
+    for i in 0..n + fixed.len() {
+        let s = if i < fixed.len() { fixed[i].clone() } else { gen_string(r, 8) };
         let v = chars(&[s.len()], &s);
         for (codec, prog) in [("utf8", "°utf₈ utf₈"), ("utf16", "°utf₁₆ utf₁₆"), ("graphemes", "°graphemes graphemes")] {
             o.count(codec);
